@@ -155,8 +155,10 @@ class BufferedReader:
 
         self._buffer = self._perform_read(self._chunk_size)
         self._buffer_len = len(self._buffer)
-        self._buffer_pos = read_size
-        return result + self._buffer[:read_size]
+        # NOTE: The source may have ended early (fewer than read_size bytes
+        #   obtained); the position must never run past the buffered data.
+        self._buffer_pos = min(read_size, self._buffer_len)
+        return result + self._buffer[: self._buffer_pos]
 
     def read_until(
         self, delimiter: bytes, size: int = -1, consume_delimiter: bool = False
